@@ -418,6 +418,61 @@ let gprog_sexp (p : gprog) : Sexp.t =
           (List.filter (fun (f, _) -> let n = implode f in not (String.length n >= 4 && String.sub n 0 4 = "New_")) p.g_funcs));
      L (A "main" :: List.map gs p.g_main)]
 
+
+(* ---------- the elaborated program in Coq syntax (used to write the Examples of Core/CompileExamples.v) ---------- *)
+let cq_str (x : char list) =
+  let b = Buffer.create 16 in
+  Buffer.add_char b '"';
+  List.iter (fun c -> if c = '"' then Buffer.add_string b "\"\"" else Buffer.add_char b c) x;
+  Buffer.add_string b "\"%string"; Buffer.contents b
+let cq_list f l = "[" ^ String.concat "; " (List.map f l) ^ "]"
+let cq_bool b = if b then "true" else "false"
+let cq_opt f = function None -> "None" | Some x -> "(Some " ^ f x ^ ")"
+let cq_op = function OAdd -> "OAdd" | OSub -> "OSub" | OMul -> "OMul" | OSAdd -> "OSAdd" | OLt -> "OLt" | OGt -> "OGt"
+                     | OLe -> "OLe" | OGe -> "OGe" | OAnd -> "OAnd" | OOr -> "OOr"
+let cq_lib f = let n = implode (libfn_name f) in
+  let i = String.index n '.' in
+  let base = String.sub n (i + 1) (String.length n - i - 1) in
+  if String.sub n 0 i = "strings" then (match base with "Length" -> "LStrLength" | "Concat" -> "LStrConcat" | b -> "L" ^ b) else "L" ^ base
+let rec cq_e = function
+  | EInt z -> "(EInt (" ^ implode (z_dec z) ^ ")%Z)"
+  | EStr s -> "(EStr " ^ cq_str s ^ ")"
+  | EBool b -> "(EBool " ^ cq_bool b ^ ")"
+  | EUnit -> "EUnit"
+  | EVar x -> "(EVar " ^ cq_str x ^ ")"
+  | EBin (o, a, b) -> "(EBin " ^ cq_op o ^ " " ^ cq_e a ^ " " ^ cq_e b ^ ")"
+  | EEq (n, a, b) -> "(EEq " ^ cq_bool n ^ " " ^ cq_e a ^ " " ^ cq_e b ^ ")"
+  | ENot a -> "(ENot " ^ cq_e a ^ ")"
+  | EIf (c, a, b) -> "(EIf " ^ cq_e c ^ " " ^ cq_b a ^ " " ^ cq_b b ^ ")"
+  | EIfOnly (c, a) -> "(EIfOnly " ^ cq_e c ^ " " ^ cq_b a ^ ")"
+  | ELam (ps, b) -> "(ELam " ^ cq_list cq_str ps ^ " " ^ cq_b b ^ ")"
+  | ECall (f, m, u, args) -> "(ECall " ^ cq_str f ^ " " ^ string_of_int (int_of_nat m) ^ " " ^ cq_bool u ^ " " ^ cq_list cq_e args ^ ")"
+  | EExt (f, args) -> "(EExt " ^ cq_lib f ^ " " ^ cq_list cq_e args ^ ")"
+  | EPipeVar (a, f, u) -> "(EPipeVar " ^ cq_e a ^ " " ^ cq_str f ^ " " ^ cq_bool u ^ ")"
+  | EPipeCall (a, f, args, u) -> "(EPipeCall " ^ cq_e a ^ " " ^ cq_str f ^ " " ^ cq_list cq_e args ^ " " ^ cq_bool u ^ ")"
+  | EPipeExt (a, f, args, u) -> "(EPipeExt " ^ cq_e a ^ " " ^ cq_lib f ^ " " ^ cq_list cq_e args ^ " " ^ cq_bool u ^ ")"
+  | ETuple es -> "(ETuple " ^ cq_list cq_e es ^ ")"
+  | ERecord (n, fs, es) -> "(ERecord " ^ cq_str n ^ " " ^ cq_list cq_str fs ^ " " ^ cq_list cq_e es ^ ")"
+  | EField (e, f) -> "(EField " ^ cq_e e ^ " " ^ cq_str f ^ ")"
+  | ECtor (u, c, a) -> "(ECtor " ^ cq_str u ^ " " ^ cq_str c ^ " " ^ cq_opt cq_e a ^ ")"
+  | EMatchU (e, u, arms, d) ->
+    "(EMatchU " ^ cq_e e ^ " " ^ cq_str u ^ " " ^
+    cq_list (fun ((c, bx), b) -> "(" ^ cq_str c ^ ", " ^ cq_opt cq_str bx ^ ", " ^ cq_b b ^ ")") arms ^ " " ^ cq_opt cq_b d ^ ")"
+  | EMatchS (e, arms, bx, last) ->
+    "(EMatchS " ^ cq_e e ^ " " ^ cq_list (fun (l, b) -> "(" ^ cq_str l ^ ", " ^ cq_b b ^ ")") arms ^ " " ^ cq_opt cq_str bx ^ " " ^ cq_b last ^ ")"
+  | ESlice es -> "(ESlice " ^ cq_list cq_e es ^ ")"
+  | EInterp ps -> "(EInterp " ^ cq_list (function Inl s -> "(inl " ^ cq_str s ^ ")" | Inr x -> "(inr " ^ cq_str x ^ ")") ps ^ ")"
+  | EBlock b -> "(EBlock " ^ cq_b b ^ ")"
+and cq_b = function
+  | BLet (x, e, b) -> "(BLet " ^ cq_str x ^ " " ^ cq_e e ^ "\n " ^ cq_b b ^ ")"
+  | BDestr (xs, e, b) -> "(BDestr " ^ cq_list cq_str xs ^ " " ^ cq_e e ^ "\n " ^ cq_b b ^ ")"
+  | BDo (e, b) -> "(BDo " ^ cq_e e ^ "\n " ^ cq_b b ^ ")"
+  | BRet (e, u) -> "(BRet " ^ cq_e e ^ " " ^ cq_bool u ^ ")"
+let cq_prog (p : prog) =
+  "{| p_unions := " ^ cq_list (fun (u, cs) -> "(" ^ cq_str u ^ ", " ^ cq_list (fun (c, h) -> "(" ^ cq_str c ^ ", " ^ cq_bool h ^ ")") cs ^ ")") p.p_unions ^
+  ";\n   p_funs := " ^ cq_list (fun (f, (ps, b)) -> "(" ^ cq_str f ^ ", (" ^ cq_list cq_str ps ^ ",\n " ^ cq_b b ^ "))") p.p_funs ^
+  ";\n   p_main := " ^ cq_b p.p_main ^ " |}"
+
 let show_outcome = function
   | ODone out -> "OUT " ^ quote (implode out)
   | OStuck w -> "STUCK " ^ quote (implode w)
@@ -429,5 +484,6 @@ let () = Registry.register "C01" (fun req ->
       | L [A "run_src"; A fuel; p] -> show_outcome (run_src (nat_of_int (int_of_string fuel)) (elab_prog p))
       | L [A "run_go"; A fuel; p] -> show_outcome (run_go (nat_of_int (int_of_string fuel)) (compile_prog (elab_prog p)))
       | L [A "compile"; p] -> to_string (gprog_sexp (compile_prog (elab_prog p)))
+      | L [A "coq"; p] -> cq_prog (elab_prog p)   (* multi-line answer; for writing Coq Examples only *)
       | _ -> "ERR bad C01 request"
     with Ill m -> "STUCK " ^ quote ("ill-formed program: " ^ m))
